@@ -73,7 +73,14 @@ def do_import():
         except Exception:
             meta = {}
         meta["property"] = prop
-        meta["origin"] = "independent sub-agent given only the property text and a scratch worktree" + (" (second round: asked for hard-to-trigger defects needing a conjunction of >= 3 conditions or an unusual scale)" if tag else "")
+        ORIGINS = {
+            "": "independent sub-agent given only the property text and a scratch worktree",
+            "h": "independent sub-agent given only the property text and a scratch worktree (second round: asked for hard-to-trigger defects needing a conjunction of >= 3 conditions or an unusual scale)",
+            "n": "independent sub-agent given the property text, a scratch worktree and the list of mechanisms already tried (third round: asked for different code sites and ideas)",
+            "a": "informed sub-agent: property text, scratch worktree and a description of how the check works (fourth round: asked for violations outside what the check samples or compares)",
+            "b": "informed sub-agent: property text, scratch worktree, a description of the hardened check and everything tried in rounds 1-4 (fifth round)",
+        }
+        meta["origin"] = ORIGINS.get(tag, ORIGINS[""])
         meta["confirmed_by_me"] = {
             "where": "scratch worktree of /repo HEAD under /tmp (removed afterwards)",
             "ran": ["git apply patch.diff", "cargo test --offline (3 times: all 65 tests green)", "cargo test --offline --test demo (fails with the change)", "git checkout -- src; cargo test --offline --test demo (passes)"],
